@@ -8,7 +8,7 @@ From Settlus Require Import Props.C01.
 Definition blocked (t : tenant) (h : Z) (l : ledger) (faults : list bool) (u : utxr) : Prop :=
   mature u (t_period t) h = false \/
   (valid_recips (u_recips u) <> [] /\
-   ((t_method t =? 0) || (t_method t =? 1) = false \/
+   (payable_method (t_method t) = false \/
     fst (pay_all (t_method t) (t_id t) (u_denom u) l faults (payout_amounts u)) = None)).
 
 (* (1) for EVERY fault plan: the loop resolves a prefix of the tenant's queue (ascending id), in
@@ -35,7 +35,7 @@ Proof.
       exists (S k). simpl. repeat split; [lia| | |assumption].
       * unfold resolved in *. simpl. f_equal. assumption.
       * rewrite Hut. reflexivity.
-    + destruct ((t_method t =? 0) || (t_method t =? 1)) eqn:Emeth; simpl in Hsl.
+    + destruct (payable_method (t_method t)) eqn:Emeth; simpl in Hsl.
       2:{ inversion Hsl; subst. exists 0%nat. simpl. repeat split; auto; [lia|]. exists []. right.
           split; [rewrite Evr; discriminate|]. left. assumption. }
       destruct (pay_all (t_method t) (t_id t) (u_denom u) (s_bal s) faults (payout_amounts u)) as [[l'|] faults'] eqn:Ep.
@@ -63,7 +63,7 @@ Theorem C11_failure_defers : forall t h uid u recs s faults,
 Proof.
   intros t h uid u recs s faults Hm Hv Hp. simpl. rewrite Hm. simpl.
   destruct (valid_recips (u_recips u)) eqn:Evr; [congruence|].
-  destruct ((t_method t =? 0) || (t_method t =? 1)); simpl; [|eauto].
+  destruct (payable_method (t_method t)); simpl; [|eauto].
   destruct (pay_all _ _ _ _ _ _) as [[l'|] faults']; simpl in Hp; [discriminate|eauto].
 Qed.
 
